@@ -2,6 +2,8 @@
 linearizable, program order, real-time precedence; burst exactness of the sequential limiter).
 T2: controlled scheduler on the real actor (actorcheck) + real-socket runs mixing HTTP, gRPC and RESP
 against ONE real server process (wirecheck)."""
+import json
+from .. import common as C
 from . import actorcheck, wirecheck
 
 COQ_TARGETS = ["Corr/ActorCorr.vo", "Properties/C09.vo"]
@@ -10,3 +12,21 @@ COQ_TARGETS = ["Corr/ActorCorr.vo", "Properties/C09.vo"]
 def run(ctx):
     actorcheck.run_actor(ctx, "C09")
     wirecheck.run_wire(ctx, "C09")
+    # known finding stamp-disorder: deterministic replay of the mechanism on the real actor (requests queued in the opposite
+    # order of their stamps), plus whatever the real-socket bursts of this run showed (class predicate in wirecheck)
+    bins = C.harness_build(ctx, "srv", ["actor"])
+    reproduced = False
+    if bins:
+        out = C.run_harness(ctx, bins["actor"], ["--mode", "witness_f10"])
+        rows = [json.loads(l) for l in out.splitlines() if l.startswith("{") and "summary" not in l]
+        reproduced = len(rows) == 3 and all(r["ok"] and r["answers"][0][0].get("a") is True and r["answers"][1][0].get("a") is False and r["answers"][1][0].get("retry") == 0 for r in rows)
+    known, _fixed = C.load_known_findings()
+    listed = [k for k in known if "property=C09" in k and "class=stamp-disorder" in k]
+    hits = getattr(ctx, "f10_hits", 0)
+    if listed and (reproduced or hits):
+        ctx.known.append(("F10", "stamp-disorder: requests are stamped by the transport before they are queued; served in the opposite order of their stamps, the later-served one of two "
+                                 "simultaneous unit requests on a fresh key with max_burst 2 is denied (retry_after 0 s) although a token is left - 1 admitted, not min(2,2) "
+                                 "(mechanism replayed on the real actor: reproduced=%s; %d real-socket bursts of this run in the class; witness findings/F10-stamp-disorder.json)" % (reproduced, hits)))
+    elif hits:
+        ctx.violations.append({"what": "C09: stamp-disorder bursts observed but the class is not listed in KNOWN_FINDINGS.txt", "input": "see findings/F10-stamp-disorder.json"})
+    ctx.coverage["known_finding_occurrences"] = hits
